@@ -22,7 +22,7 @@ NOGLU = tuple(i for i in R.IDS if i != 'Glucose')
 
 
 def required(tier):
-    return ['dH', 'dH:tagged', 'dH:wt', 'isothermal', 'isothermal-literal', 'adiabatic', 'adiabatic:Q', 'adiabatic:no-conversion+Q', 'comb:parallel', 'comb:series', 'comb:system']
+    return ['dH', 'dH:tagged', 'dH:wt', 'isothermal', 'isothermal-literal', 'adiabatic', 'adiabatic:Q', 'adiabatic:no-conversion+Q', 'dH:set-item', 'comb:parallel', 'comb:series', 'comb:system']
 
 
 def gen_case(rng):
@@ -126,6 +126,18 @@ def run_case(case, rec):
     except Exception as e:
         rec.exception('construct', e, what=f'constructing reaction raised {type(e).__name__}: {e}'); return
     rec.hit('comb:' + case['comb'])
+    if case['comb'] in ('parallel', 'series'):
+        # the heat of reaction reported by each member of a set (an item shares the set's conversion array)
+        for k_, d in enumerate(case['members']):
+            try: got = rx[k_].dH
+            except Exception as e:
+                rec.exception('dH', e, what=f'dH of item {k_} of a {case["comb"]} set raised {type(e).__name__}: {e}'); break
+            exp = expected_dH(d, th)
+            scale = max(abs(exp), max(abs(ch[i].Hf) for i in d['st']) * 1e-3, 1e-300)
+            okshape = np.ndim(got) == 0
+            rec.hit('dH:set-item')
+            rec.check(okshape and abs(got - exp) <= 1e-11 * scale + 1e-12 * abs(exp), 'dH', 'set-item/' + tag, f'item {k_} of a {case["comb"]} set reports dH={got!r} but X*sum(nu*(Hf+latent)) = {exp!r}',
+                      residual=(abs(got - exp) / scale) if okshape else None)
     if kind == 'dH':
         d = case['members'][0]
         try: got = rx.dH
